@@ -264,7 +264,10 @@ PROPS = {
                 "errors and panics; handler completion order forced through gates (a random permutation); a quarter with the worker "
                 "pool; distinct = distinct model-input line; non-trivial = at least 2 requests",
         "theorems": ["C04_two_way_exactly_one_stamped", "C04_one_way_no_response", "C04_heartbeat_echo",
-                     "C04_frames_answer_own_connection", "C04_completed_requests_written_once"],
+                     "C04_frames_answer_own_connection", "C04_completed_requests_written_once",
+                     "C04_refused_request_answered_once_stamped", "C04_refused_one_way_request_is_silent",
+                     "C04_served_two_way_exactly_one_stamped", "C04_served_one_way_no_response",
+                     "C04_served_frames_answer_own_connection"],
         "assumptions": ["handlers, the service table and the codecs are universally quantified Section variables; reflection "
                         "(reflect.Call) is abstracted into the handler function",
                         "router handlers call ctx.Write at most once (user code)",
@@ -335,7 +338,8 @@ PROPS = {
                 "{heartbeat, one-way} flag combinations x target {reflected method, registered function, unknown service}; plus every "
                 "malformed gateway header and the malformed JSON-RPC method; one fresh connection per request; distinct = distinct "
                 "model-input line (all are non-trivial)",
-        "theorems": ["C15_rejected_never_reaches_a_handler", "C15_any_rejecting_plugin_wherever_registered", "C15_rejecting_stages_stop_at_the_first_rejection", "C15_native_auth_failure_closes", "C15_heartbeat_never_reaches_a_handler"],
+        "theorems": ["C15_rejected_never_reaches_a_handler", "C15_any_rejecting_plugin_wherever_registered", "C15_rejecting_stages_stop_at_the_first_rejection", "C15_native_auth_failure_closes", "C15_heartbeat_never_reaches_a_handler",
+                     "C15_native_loop_refused_requests_reach_no_handler", "C15_only_failed_authentication_closes"],
         "assumptions": ["a post-read plugin's rejection is a generic error (the rate limiter's ErrReqReachLimit answers and continues)",
                         "the stock plugins under serverplugin/ are exercised through the same stage interfaces, not modelled one by one",
                         "net/http, cmux and httprouter are externals"],
